@@ -156,7 +156,7 @@ Qed.
 (* a callback error or nil configuration: no child is touched, the configuration is kept,
    the machine goes to Error, the reload lock is released *)
 Lemma failed_callback_step P s k r s' :
-  r <> CbNil \/ r <> CbErr -> (forall c, r <> CbSome c) ->
+  (forall c, r <> CbSome c) ->
   step P s (LCb (ORel k) r) = Some s' ->
   fsm s' = FError /\ cfg s' = cfg s /\ kids s' = kids s /\ workers s' = workers s
   /\ sigs s' = sigs s /\ reload_mu s' = None
@@ -164,7 +164,7 @@ Lemma failed_callback_step P s k r s' :
   /\ option_map r_path (nth_error (reloaders s') k) = Some PFailedCb
   /\ option_map r_calls (nth_error (reloaders s') k) = option_map r_calls (nth_error (reloaders s) k).
 Proof.
-  intros _ Hr Hst. cbn [step] in Hst.
+  intros Hr Hst. cbn [step] in Hst.
   unfold rel_pc in Hst. destruct (nth_error (reloaders s) k) as [x|] eqn:Ex; cbn in Hst; [|discriminate].
   destruct (r_pc x) eqn:Ep; try discriminate.
   destruct r as [c| |]; [exfalso; now apply (Hr c)| |];
